@@ -32,6 +32,8 @@ def obsEvents : List String → Option (List (String × Ev))
     | ["m", ty, v] => do let v ← parseInt v; let r ← obsEvents ts; pure ((ty, Ev.maxStreams v) :: r)
     | ["acc", ty, n] => do let n ← parseInt n; let r ← obsEvents ts; pure ((ty, Ev.accepted n) :: r)
     | ["closed", ty, _] => do let r ← obsEvents ts; pure ((ty, Ev.closed) :: r)
+    | ["lclosed", ty, _] => do let r ← obsEvents ts; pure ((ty, Ev.localClosed) :: r)
+    | ["fin", _] => obsEvents ts
     | ["ok", n] => do let n ← parseInt n; let r ← obsEvents ts; pure (("?", Ev.localOpen (some n)) :: r)
     | ["blocked"] => do let r ← obsEvents ts; pure (("?", Ev.localOpen none) :: r)
     | ["x", _] => obsEvents ts
